@@ -276,3 +276,286 @@ Proof.
   - reflexivity.
   - reflexivity.
 Qed.
+
+
+Lemma run_nonempty st s o r : s <> [] ->
+  (run st s o r <->
+   match chunked_iter st s o with
+   | Continue st' s' => run st' s' o r
+   | Break st' => r = (st', o)
+   | Return st' v => r = (st', v)
+   end).
+Proof. destruct s; [congruence|]. intros _. apply run_cons. Qed.
+
+Definition one_byte_concl st b s :=
+  exists st1, run st [b] 1 (st1, 1%Z) /\
+  ( (c_error st1 = None /\ c_completed st1 = true /\
+     run st (b :: s) (Z.of_nat (S (length s))) (st1, 1%Z))
+  \/ (c_error st1 = None /\ c_completed st1 = false /\
+      forall st2 n2, run st1 s (Z.of_nat (length s)) (st2, n2) ->
+        exists st', run st (b :: s) (Z.of_nat (S (length s))) (st', (1 + n2)%Z) /\ ceq st2 st')
+  \/ (exists e, c_error st1 = Some e /\
+      exists st' n', run st (b :: s) (Z.of_nat (S (length s))) (st', n') /\ c_error st' = Some e)).
+
+Lemma iff_cont st b s st1 :
+  (forall o, chunked_iter st (b :: s) o = Continue st1 s) ->
+  forall o r, run st (b :: s) o r <-> run st1 s o r.
+Proof. intros H o r. rewrite run_cons, H. tauto. Qed.
+
+Lemma iff_iter st b s st1 : s <> [] ->
+  (forall o, chunked_iter st (b :: s) o = chunked_iter st1 s o) ->
+  forall o r, run st (b :: s) o r <-> run st1 s o r.
+Proof.
+  intros Hs H o r. destruct s as [|y s]; [congruence|].
+  rewrite (run_cons st), (run_cons st1), H. tauto.
+Qed.
+
+Lemma same_cont st b s st1 :
+  (forall o, chunked_iter st [b] o = Continue st1 []) ->
+  (forall o r, run st (b :: s) o r <-> run st1 s o r) ->
+  c_error st1 = None -> c_completed st1 = false -> one_byte_concl st b s.
+Proof.
+  intros H1 H2 He Hc. exists st1. split.
+  - apply run_cons. rewrite H1. apply run_nil. reflexivity.
+  - right; left. split; auto. split; auto. intros st2 n2 R.
+    exists st2. split; [|apply ceq_refl].
+    apply H2. apply (run_shift _ _ _ 1) in R.
+    replace (Z.of_nat (S (length s))) with (Z.of_nat (length s) + 1)%Z by lia.
+    replace (1 + n2)%Z with (n2 + 1)%Z by lia. exact R.
+Qed.
+
+
+(* explicit form of the control-line step *)
+Definition ctl_step (st : chunked_rcv) (line rest : bytes) : iter_res :=
+  let st1 := set_control st [] in
+  match line with
+  | [] => Continue st1 rest
+  | _ =>
+    match control_line_verdict line with
+    | LVBadExt => Break (set_all (set_error st1 (Some EInvalidChunkExt)) true)
+    | LVBadSize => Break (set_all (set_error st1 (Some EInvalidChunkSize)) true)
+    | LVSize sz => if (0 <? sz)%N then Continue (set_rem st1 sz) rest else Continue (set_all st1 true) rest
+    end
+  end.
+
+Lemma iter_control_line st x o pos :
+  chunk_remainder st = 0%N -> validate_chunk_end st = false -> all_chunks_received st = false ->
+  find (control_line st ++ x) CRLF = Some pos ->
+  chunked_iter st x o = ctl_step st (firstn pos (control_line st ++ x)) (skipn (pos + 2) (control_line st ++ x)).
+Proof.
+  intros H1 H2 H3 Hf. unfold chunked_iter, ctl_step. rewrite H1, H2, H3, Hf. reflexivity.
+Qed.
+
+Lemma iter_control_store st x o :
+  chunk_remainder st = 0%N -> validate_chunk_end st = false -> all_chunks_received st = false ->
+  find (control_line st ++ x) CRLF = None ->
+  chunked_iter st x o = Continue (set_control st (control_line st ++ x)) [].
+Proof.
+  intros H1 H2 H3 Hf. unfold chunked_iter. rewrite H1, H2, H3, Hf. reflexivity.
+Qed.
+
+Lemma iter_trailer_cases st x o :
+  chunk_remainder st = 0%N -> validate_chunk_end st = false -> all_chunks_received st = true ->
+  (exists a v, chunked_iter st x o = Return a v /\ c_error a = c_error st /\ c_completed a = true) \/
+  (chunked_iter st x o = Continue (set_trailer st (trailer st ++ x)) []).
+Proof.
+  intros H1 H2 H3. unfold chunked_iter. rewrite H1, H2, H3. cbn [N.ltb N.compare negb].
+  destruct (startswith (trailer st ++ x) CRLF).
+  - left. eexists _, _. split; [reflexivity|]. rsimpl. auto.
+  - destruct (find_double_newline (trailer st ++ x)).
+    + left. eexists _, _. split; [reflexivity|]. rsimpl. auto.
+    + right. reflexivity.
+Qed.
+
+Lemma sw2_CRLF c b : ~ (c = 13 /\ b = 10)%N -> startswith [c; b] CRLF = false.
+Proof.
+  intros H. unfold CRLF. rewrite startswith2.
+  destruct ((13 =? c) && (10 =? b))%N eqn:E; auto.
+  apply andb_true_iff in E as [E1 E2]. apply N.eqb_eq in E1, E2. subst. tauto.
+Qed.
+
+Lemma find_short s p : length s < length p -> find s p = None.
+Proof.
+  intros H. apply find_none_intro. intros j _. apply startswith_short.
+  rewrite skipn_length. lia.
+Qed.
+
+Lemma iter_trailer_store st x o :
+  chunk_remainder st = 0%N -> validate_chunk_end st = false -> all_chunks_received st = true ->
+  startswith (trailer st ++ x) CRLF = false -> find_double_newline (trailer st ++ x) = None ->
+  chunked_iter st x o = Continue (set_trailer st (trailer st ++ x)) [].
+Proof.
+  intros H1 H2 H3 H4 H5. unfold chunked_iter. rewrite H1, H2, H3. cbn [N.ltb N.compare negb].
+  rewrite H4, H5. reflexivity.
+Qed.
+
+Lemma bad_term st c b s :
+  chunk_remainder st = 0%N -> validate_chunk_end st = true -> chunk_end st = [c] ->
+  trailer st = [] -> ~ (c = 13 /\ b = 10)%N -> one_byte_concl st b s.
+Proof.
+  intros H1 H2 H3 H4 Hn.
+  exists (set_trailer (st_term_bad st) [c; b]). split.
+  - apply run_cons. rewrite (iter_validate_bad st c b [] 1 H1 H2 H3 Hn).
+    apply run_cons.
+    assert (T : trailer (st_term_bad st) = []) by exact H4.
+    rewrite (iter_trailer_store (st_term_bad st) [c; b] 1); auto.
+    + rewrite T. apply run_nil. reflexivity.
+    + rewrite T. apply (sw2_CRLF c b Hn).
+    + rewrite T. unfold find_double_newline. cbn [app].
+      rewrite (find_short [c; b] CRLFCRLF) by (simpl; lia). reflexivity.
+  - right; right. exists EChunkNotTerminated. split; [reflexivity|].
+    destruct (run_total (st_term_bad st) (c :: b :: s) (Z.of_nat (S (length s)))) as [[st' n'] R].
+    exists st', n'. split.
+    + apply run_cons. rewrite (iter_validate_bad st c b s _ H1 H2 H3 Hn). exact R.
+    + destruct R as [f R]. eapply (loop_error_kept f (st_term_bad st)); eauto.
+Qed.
+Theorem run_one_byte st b s :
+  wf_c st -> c_completed st = false -> c_error st = None -> s <> [] -> one_byte_concl st b s.
+Proof.
+  intros W Hc He Hs. pose proof W as W0. destruct W as [Wctl Wce Wt1 Wt2 Wall Wnall].
+  specialize (Wt1 Hc). specialize (Wt2 Hc).
+  destruct (0 <? chunk_remainder st)%N eqn:Hrm.
+  { (* data *)
+    apply N.ltb_lt in Hrm.
+    destruct (N.eq_dec (chunk_remainder st) 1) as [E|E].
+    - apply (same_cont _ _ _ (set_validate (set_rem (buf_append st [b]) 0) true)); auto.
+      + intros o. apply iter_data_one; auto.
+      + apply iff_cont. intros o. apply iter_data_one; auto.
+    - apply (same_cont _ _ _ (set_rem (buf_append st [b]) (chunk_remainder st - 1))); auto.
+      + intros o. apply iter_data_more_1. lia.
+      + apply iff_iter; auto. intros o. apply iter_data_more. lia. }
+  apply N.ltb_ge in Hrm. assert (Hrm0 : chunk_remainder st = 0%N) by lia.
+  destruct (validate_chunk_end st) eqn:Hv.
+  { (* chunk terminator *)
+    assert (Hall : all_chunks_received st = false).
+    { destruct (all_chunks_received st) eqn:E; auto. destruct (Wall eq_refl). congruence. }
+    pose proof (Wnall Hall) as Htr.
+    destruct (chunk_end st) as [|c [|c2 ce]] eqn:Hce; [| |simpl in Wce; lia].
+    - apply (same_cont _ _ _ (set_chunk_end st [b])); auto.
+      + intros o. apply iter_validate_store; auto.
+      + apply iff_iter; auto. intros o.
+        pose proof (iter_store_chunk_end st [b] s o Hrm0 Hv) as C. rewrite Hce in C. symmetry. exact C.
+    - destruct (N.eq_dec c 13) as [Ec|Ec]; [destruct (N.eq_dec b 10) as [Eb|Eb]|].
+      + subst c b. apply (same_cont _ _ _ (st_term_ok st)); auto.
+        * intros o. apply (iter_validate_ok st [] o); auto.
+        * apply iff_cont. intros o. apply iter_validate_ok; auto.
+      + apply (bad_term st c b s); auto. intros [_ Hb]. auto.
+      + apply (bad_term st c b s); auto. intros [Hb _]. auto. }
+  destruct (all_chunks_received st) eqn:Hall.
+  2:{ (* control line *)
+    destruct (find (control_line st ++ [b]) CRLF) as [pos|] eqn:Hf.
+    - pose proof (find2_snoc _ _ _ _ _ Wctl Hf) as (Lp & _ & _).
+      assert (Hrest : skipn (pos + 2) (control_line st ++ [b]) = []).
+      { apply skipn_all2. rewrite app_length. simpl. lia. }
+      assert (Hf2 : find (control_line st ++ b :: s) CRLF = Some pos).
+      { change (b :: s) with ([b] ++ s). rewrite app_assoc. apply find_app_l; auto. }
+      assert (I1 : forall o, chunked_iter st [b] o = ctl_step st (firstn pos (control_line st ++ [b])) []).
+      { intros o. rewrite (iter_control_line st [b] o pos); auto. now rewrite Hrest. }
+      assert (I2 : forall o, chunked_iter st (b :: s) o = ctl_step st (firstn pos (control_line st ++ [b])) s).
+      { intros o. rewrite (iter_control_line st (b :: s) o pos); auto.
+        change (b :: s) with ([b] ++ s). rewrite app_assoc.
+        rewrite (firstn_app_find _ s _ _ Hf).
+        pose proof (skipn_app_find _ s _ _ Hf) as Hs2. change (length CRLF) with 2 in Hs2.
+        rewrite Hs2, Hrest. reflexivity. }
+      unfold ctl_step in I1, I2.
+      destruct (firstn pos (control_line st ++ [b])) as [|l0 line].
+      + apply (same_cont _ _ _ (set_control st [])); auto. apply iff_cont; auto.
+      + destruct (control_line_verdict (l0 :: line)) as [sz| |].
+        * destruct (0 <? sz)%N.
+          -- apply (same_cont _ _ _ (set_rem (set_control st []) sz)); auto. apply iff_cont; auto.
+          -- apply (same_cont _ _ _ (set_all (set_control st []) true)); auto. apply iff_cont; auto.
+        * eexists. split; [apply run_cons; rewrite I1; reflexivity|].
+          right; right. exists EInvalidChunkExt. split; [reflexivity|].
+          eexists _, _. split; [apply run_cons; rewrite I2; reflexivity | reflexivity].
+        * eexists. split; [apply run_cons; rewrite I1; reflexivity|].
+          right; right. exists EInvalidChunkSize. split; [reflexivity|].
+          eexists _, _. split; [apply run_cons; rewrite I2; reflexivity | reflexivity].
+    - apply (same_cont _ _ _ (set_control st (control_line st ++ [b]))); auto.
+      + intros o. apply iter_control_store; auto.
+      + apply iff_iter; auto. intros o. symmetry. apply (iter_store_control st [b] s o); auto. }
+  (* trailer *)
+  destruct (iter_trailer_cases st [b] 1 Hrm0 Hv Hall) as [(a & v & Ha & Ea & Ca)|Hst].
+  - assert (Hv1 : v = 1%Z).
+    { pose proof (iter_spec 1 st [b] W0 Hc
+                    ltac:(discriminate) ltac:(left; simpl; lia)) as S.
+      change (Z.of_nat 1) with 1%Z in S. rewrite Ha in S. lia. }
+    subst v. exists a. split; [apply run_cons; rewrite Ha; reflexivity|].
+    left. split; [congruence|]. split; auto.
+    apply run_cons. change (b :: s) with ([b] ++ s).
+    replace (Z.of_nat (S (length s))) with (1 + Z.of_nat (length s))%Z by lia.
+    rewrite (iter_trailer_return st [b] s 1 a 1 Hrm0 Hv Hall Ha). reflexivity.
+  - exists (set_trailer st (trailer st ++ [b])). split; [apply run_cons; rewrite Hst; apply run_nil; reflexivity|].
+    right; left. split; auto. split; auto. intros st2 n2 R.
+    pose proof (iter_store_trailer st [b] s (Z.of_nat (length s)) Hrm0 Hv Hall) as Rel.
+    apply run_nonempty in R; auto.
+    assert (Sh : chunked_iter st (b :: s) (Z.of_nat (S (length s)))
+                 = match chunked_iter st (b :: s) (Z.of_nat (length s)) with
+                   | Continue a0 b0 => Continue a0 b0 | Break a0 => Break a0
+                   | Return a0 v0 => Return a0 (v0 + 1) end).
+    { replace (Z.of_nat (S (length s))) with (Z.of_nat (length s) + 1)%Z by lia.
+      apply iter_shift. }
+    change ([b] ++ s) with (b :: s) in Rel.
+    destruct (chunked_iter (set_trailer st (trailer st ++ [b])) s (Z.of_nat (length s)))
+      as [a1 r1| |a1 v1];
+    destruct (chunked_iter st (b :: s) (Z.of_nat (length s))) as [a2 r2| |a2 v2];
+      try contradiction.
+    + destruct Rel as (-> & -> & ->). apply run_nil in R. injection R as -> ->.
+      exists a2. split; [|apply ceq_refl]. apply run_cons. rewrite Sh. apply run_nil. f_equal. lia.
+    + destruct Rel as (-> & Cc & Eq). injection R as -> ->.
+      exists a2. split; [|right; auto]. apply run_cons. rewrite Sh. f_equal. lia.
+Qed.
+
+(* the same, in terms of chunked_received *)
+Theorem chunked_one_byte st b s :
+  wf_c st -> c_completed st = false -> c_error st = None -> s <> [] ->
+  exists st1, chunked_received st [b] = Some (st1, 1%Z) /\
+  ( (c_error st1 = None /\ c_completed st1 = true /\ chunked_received st (b :: s) = Some (st1, 1%Z))
+  \/ (c_error st1 = None /\ c_completed st1 = false /\
+      forall st2 n2, chunked_received st1 s = Some (st2, n2) ->
+        exists st', chunked_received st (b :: s) = Some (st', (1 + n2)%Z) /\ ceq st2 st')
+  \/ (exists e, c_error st1 = Some e /\
+      exists st' n', chunked_received st (b :: s) = Some (st', n') /\ c_error st' = Some e)).
+Proof.
+  intros W Hc He Hs. destruct (run_one_byte st b s W Hc He Hs) as (st1 & R1 & Cases).
+  exists st1. split; [apply received_run; auto|].
+  destruct Cases as [(A & B & C)|[(A & B & C)|(e & A & st' & n' & C & D)]].
+  - left. split; auto. split; auto. apply received_run; auto.
+  - right; left. split; auto. split; auto. intros st2 n2 R.
+    apply received_run in R; auto. destruct (C st2 n2 R) as (st' & R' & Q).
+    exists st'. split; auto. apply received_run; auto.
+  - right; right. exists e. split; auto. exists st', n'. split; auto. apply received_run; auto.
+Qed.
+
+
+(* ------------------------------------------------------------------ *)
+(* the fixed-length receiver *)
+Lemma fixed_one_byte f b s : (1 <= f_remain f)%N -> s <> [] ->
+  exists f1, fixed_received f [b] = (f1, 1%Z) /\
+  ((f_remain f = 1%N /\ f_completed f1 = true /\ fixed_received f (b :: s) = (f1, 1%Z)) \/
+   ((1 < f_remain f)%N /\ f_completed f1 = f_completed f /\ (1 <= f_remain f1)%N /\
+    forall f2 n2, fixed_received f1 s = (f2, n2) -> fixed_received f (b :: s) = (f2, (1 + n2)%Z))).
+Proof.
+  intros Hr Hs. unfold fixed_received at 1 2.
+  destruct (f_remain f <? 1)%N eqn:E1; [apply N.ltb_lt in E1; lia|].
+  change (lenN [b]) with 1%N. rewrite lenN_cons.
+  assert (Hl : (1 <= lenN s)%N) by (destruct s; [congruence | rewrite lenN_cons; lia]).
+  destruct (N.eq_dec (f_remain f) 1) as [E|E].
+  - rewrite E. cbn [N.leb N.compare]. eexists. split; [reflexivity|]. left. split; auto. split; [reflexivity|].
+    destruct (1 <=? 1 + lenN s)%N eqn:E2; [|apply N.leb_gt in E2; lia]. reflexivity.
+  - destruct (f_remain f <=? 1)%N eqn:E2; [apply N.leb_le in E2; lia|].
+    eexists. split; [reflexivity|]. right. split; [lia|]. cbn [f_completed f_remain f_buf].
+    split; [reflexivity|]. split; [lia|].
+    intros f2 n2. unfold fixed_received. cbn [f_completed f_remain f_buf].
+   
+    destruct (f_remain f - 1 <? 1)%N eqn:E3; [apply N.ltb_lt in E3; lia|].
+    assert (Hn : N.to_nat (f_remain f) = S (N.to_nat (f_remain f - 1))) by lia.
+    destruct (f_remain f - 1 <=? lenN s)%N eqn:E4.
+    + apply N.leb_le in E4. destruct (f_remain f <=? 1 + lenN s)%N eqn:E5; [|apply N.leb_gt in E5; lia].
+      intros H; injection H as <- <-. cbv zeta. rewrite E1, (lenN_cons b s), E5.
+      rewrite Hn. cbn [firstn]. rewrite <- app_assoc. cbn [app].
+      f_equal. lia.
+    + apply N.leb_gt in E4. destruct (f_remain f <=? 1 + lenN s)%N eqn:E5; [apply N.leb_le in E5; lia|].
+      intros H; injection H as <- <-. cbv zeta. rewrite E1, (lenN_cons b s), E5.
+      rewrite <- app_assoc. cbn [app].
+      f_equal; [f_equal; lia | lia].
+Qed.
